@@ -3,7 +3,7 @@ from engine.facts import CannotDecide, callee_is, path_matches
 from engine.prov import const_int
 from engine import cfg
 from engine.asyncs import awaits, await_of_call, base_local
-from .common import (Table, client_dispatch_poll, reachable_local_fns, norm_path, guarded_by_bool, guarded_by_variant, sends_cancel_id, find_calls)
+from .common import (Table, client_dispatch_poll, reachable_local_fns, norm_path, guarded_by_bool, guarded_by_variant, sends_cancel_id, find_calls, message_send_sites)
 
 META = {
     'level': 'other',
@@ -141,20 +141,21 @@ def run(ctx):
     # ------------------------------------------------------------------ 5/6. message constructors and ordering at the send sites
     table = Table(F, 'client')
     insert_m = table.one(table.inserting(), 'inserting')
+    rsend = message_send_sites(F, P, reach, 'Request')
+    csend = message_send_sites(F, P, reach, 'Cancel')
     reqs = list(F.all_aggregates('ClientMessage', 'Request'))
-    cans = list(F.all_aggregates('ClientMessage', 'Cancel'))
-    R.ob('C03.ctor', ('ClientMessage', 'constructor sites'), len(reqs) == 1 and len(cans) == 1 and all(any(g.id == x.id for x in reach) for g, _, _, _ in reqs + cans),
-         'requests and cancels are each built at one site inside the dispatch', [g.loc(s) for g, _, _, s in reqs + cans])
-    for g, i, j, s in reqs:
-        agg = ('agg', g.id, i, j)
-        sends = [(bb, t) for bb, t in g.calls() if (callee_is(t, 'Sink::start_send') or (F.callee_fn(t) is not None and any(callee_is(t2, 'Sink::start_send') for _, t2 in F.callee_fn(t).calls())))
-                 and any(r == agg for a in t['args'] for r, _ in P.root(P.operand(g, a, at=bb)))]
+    cans_all = list(F.all_aggregates('ClientMessage', 'Cancel'))
+    R.ob('C03.ctor', ('ClientMessage', 'constructor sites'), len(reqs) == 1 and len(cans_all) == 1 and len(rsend) == 1 and len(csend) == 1
+         and all(any(g.id == x.id for x in reach) for g, _, _, _ in reqs + cans_all),
+         'requests and cancels are each built at one site and written at one site inside the dispatch', [g.loc(s) for g, _, _, s in reqs + cans_all])
+    for g, sbb, st_, agg in rsend:
         ins = [(bb, t) for bb, t in g.calls() if F.callee_fn(t) is insert_m]
-        ok = len(sends) == 1 and len(ins) == 1 and cfg.dominates(g, ins[0][0], sends[0][0]) and ins[0][0] != sends[0][0]
+        ok = len(ins) == 1 and cfg.dominates(g, ins[0][0], sbb) and ins[0][0] != sbb
         R.ob('C03.order', ('dispatch poll', 'registered before written'), ok, 'the request is in the in-flight table before it is handed to the transport (a later cancel will find it)',
-             [g.loc(t) for _, t in ins + sends] or [g.loc(s)])
-    for g, i, j, s in cans:
-        agg = ('agg', g.id, i, j)
+             [g.loc(t) for _, t in ins] + [g.loc(st_)])
+    cans = [(g, sbb, st_, agg) for g, sbb, st_, agg in csend]
+    for g, sbb, st_, agg in cans:
+        s = st_
         idr = P.root(P._field(agg, 'request_id'))
         from_q = bool(idr) and all((P.is_call(r, 'poll_next_unpin', 'Stream::poll_next', 'UnboundedReceiver::poll_recv', 'CanceledRequests::poll_recv')) for r, _ in idr)
         R.ob('C03.cancel', ('dispatch poll', 'cancel id comes from the cancellation queue'), from_q, 'the id in a Cancel message is an id taken from the cancellation queue', [g.loc(s)],
@@ -179,8 +180,7 @@ def run(ctx):
                 timer = any(callee_is(t2, 'DelayQueue::remove') for x in F.with_descendants(m) for _, t2 in x.calls())
                 R.ob('C03.cancel', ('client table cancelling removal', 'forgets without completing'), no_send and timer,
                      'the cancelling removal drops the entry and its timer and does not resolve the (abandoned) call', [m.loc(m.d)])
-        sends = [(bb, t) for bb, t in g.calls() if any(r == agg for a in t['args'] for r, _ in P.root(P.operand(g, a, at=bb)))]
-        R.ob('C03.cancel', ('dispatch poll', 'cancel is written'), len(sends) == 1, 'the Cancel message is handed to the transport', [g.loc(t) for _, t in sends] or [g.loc(s)])
+        R.ob('C03.cancel', ('dispatch poll', 'cancel is written'), True, 'the Cancel message is handed to the transport', [g.loc(st_)])
 
 
 def _base_ty(f, pl):
